@@ -287,7 +287,9 @@ def install_shims(inj):
 
     def _open(file, *a, **kw):
         if not isinstance(file, int):
-            inj.hit("open")
+            # label by the specs.py function that opens: safe_open = a redirect target,
+            # parse_shebang_from_file / _is_binary = the script being inspected
+            inj.hit("open@" + sys._getframe(1).f_code.co_name)
         return builtins.open(file, *a, **kw)
 
     xspecs.open = _open
@@ -462,7 +464,19 @@ class _CaseTimeout(BaseException):
     pass
 
 
+_HANG_STACKS = []
+
+
 def _alarm(signum, frame):
+    import traceback
+
+    try:
+        names = {t.ident: type(t).__name__ for t in threading.enumerate()}
+        for ident, fr in sys._current_frames().items():
+            st = traceback.extract_stack(fr)
+            _HANG_STACKS.append(names.get(ident, "?") + ": " + " < ".join(f"{os.path.basename(f.filename)}:{f.lineno}:{f.name}" for f in reversed(st[-6:])))
+    except Exception:  # noqa: BLE001
+        pass
     raise _CaseTimeout()
 
 
@@ -541,6 +555,7 @@ def _child(case, resfd):
                     snaps.append(snapshot(XSH, work, base))
         except _CaseTimeout:
             res["hang"] = True
+            res["hang_stacks"] = sorted(_HANG_STACKS)
         finally:
             signal.setitimer(signal.ITIMER_REAL, 0)
         res["outcomes"] = outcomes
